@@ -116,10 +116,10 @@ def run(chk, c):
     goldstone(chk, c)
 
 
-def goldstone(chk, c):
+def goldstone(chk, c, pid='C04', fn_name='reorder_DRbar_masses'):
     """reorder_DRbar_masses: afterwards index 0 holds the state closest to MZ (MW) and row i of Z still belongs to mass i"""
     fam = 'goldstone-order'
-    chk.functions.update(['reorder_DRbar_masses', 'move_goldstone_to', 'closest_index'])
+    chk.functions.update([fn_name, 'move_goldstone_to', 'closest_index'])
     spec = {'MVZ': ('vx_MVZ', []), 'MVWm': ('vx_MVWm', [])}
     for i in range(2):
         spec['MAh%d' % i] = ('vx_MAh', [i])
@@ -158,10 +158,10 @@ def goldstone(chk, c):
             closer0 = d0 * d0 <= d1 * d1
             good = z3.Or(z3.And(closer0, ident), z3.And(z3.Not(closer0), swap), z3.And(d0 * d0 == d1 * d1, z3.Or(ident, swap)))
             r, mdl = chk.prove('goldstone:%s#%d' % (m, pi), list(st2.pc) + [z3.Not(good)], family=fam,
-                               sample={'obligation': 'after reorder_DRbar_masses: %s(0) is the state closest to %s and the rows of %s '
+                               sample={'obligation': 'after reordering: %s(0) is the state closest to %s and the rows of %s '
                                        'are permuted with the masses' % (m, ref, z)})
             if r == 'sat':
-                chk.violation('goldstone:%s' % m, 'C04:goldstone-order:%s' % m,
-                              'reorder_DRbar_masses: masses and mixing-matrix rows of %s are not permuted consistently / the state '
-                              'closest to %s is not at index 0' % (m, ref),
-                              '#!/bin/sh\ncd %s && exec python3-vt -m props.replay_c04 goldstone\n' % VERIF)
+                chk.violation('goldstone:%s' % m, '%s:goldstone-order:%s' % (pid, m),
+                              '%s: masses and mixing-matrix rows of %s are not permuted consistently / the state '
+                              'closest to %s is not at index 0' % (fn_name, m, ref),
+                              '#!/bin/sh\ncd %s && exec python3-vt -m props.replay_%s goldstone\n' % (VERIF, pid.lower()))
